@@ -13,7 +13,8 @@ from vizier._src.service import vizier_client
 from vizier._src.service import vizier_service_pb2 as vs
 from vizier.service import pyvizier as vz
 
-ALPHABET = ['', 'a', 'b', 'b:', ':', '\\', 'a\\', 'é', 'a:b', 'x', '\n', 'a\\\n', '\\\n', 'a b', ' ', 'a\\:', '\\\\']
+# ('caf\u00e9' and 'cafe\u0301' are canonically equivalent but different strings: distinct namespaces)
+ALPHABET = ['caf\u00e9', 'cafe\u0301', '\u212b', '\u00c5', '', 'a', 'b', 'b:', ':', '\\', 'a\\', 'é', 'a:b', 'x', '\n', 'a\\\n', '\\\n', 'a b', ' ', 'a\\:', '\\\\']
 BENIGN = ['', 'a', 'b', 'é', 'x']
 # Keys share the namespace alphabet (incl. the separator) so that a store keyed
 # on a concatenation of namespace and key would collide: ns ('a',) + key 'b:a'
